@@ -51,7 +51,7 @@ def gen_history(rng, stk, pool=3, nops=12):
             if live:
                 ch += ['move'] * 3
         if live:
-            ch += ['app'] * 8 + ['appc'] * 3 + ['shl'] * 2 + ['shlc', 'trunc', 'trunc', 'erase', 'erase', 'masg', 'masg', 'masg', 'del']
+            ch += ['app'] * 8 + ['appc'] * 3 + ['shl'] * 2 + ['shlc', 'trunc', 'trunc', 'erase', 'erase', 'masg', 'masg', 'masg', 'del', 'tostr', 'tostr', 'wide']
         op = rng.choice(ch)
         if op == 'new':
             o = rng.choice(dead); ops.append('new,%d' % o); live.add(o); size[o] = 0
@@ -87,6 +87,20 @@ def gen_history(rng, stk, pool=3, nops=12):
         elif op == 'erase':
             o = rng.choice(sorted(live)); n = rng.choice([0, 1, size[o] // 2, max(size[o] - 1, 0), size[o], size[o] + 1])
             ops.append('erase,%d,%d' % (o, n)); size[o] = size[o] - n if n < size[o] else 0
+        elif op == 'tostr':
+            o = rng.choice(sorted(live))
+            ops.append('tostr,%d,%s,%s' % (o, rng.choice(['u', 'u', 'l']), rng.choice(['cv', 'si', 'av', 'default'])))
+        elif op == 'wide':
+            o = rng.choice(sorted(live))
+            cps = [rng.choice([0x41, 0xE9, 0x7FF, 0x800, 0x20AC, 0xFFFD, 0x10000, 0x1F600, 0x10FFFF]) for _ in range(rng.choice([1, 2, 5, 40]))]
+            u8 = ''.join(chr(c) for c in cps).encode('utf-8').hex()
+            if rng.random() < 0.5:
+                u = ''.join(chr(c) for c in cps).encode('utf-16-be').hex()
+                ops.append('%s,%d,%s,M=%s' % (rng.choice(['shl16', 'shl16s', 'shl16v']), o, u, u8))
+            else:
+                u = ''.join('%08x' % c for c in cps)
+                ops.append('%s,%d,%s,M=%s' % (rng.choice(['shl32', 'shl32s', 'shlw']), o, u, u8))
+            size[o] += len(u8) // 2
         elif op == 'del':
             o = rng.choice(sorted(live)); ops.append('del,%d' % o); live.discard(o)
     return ops
@@ -106,6 +120,12 @@ def directed(stk):
         out.append(['new,0', 'app,0,' + a, 'appc,0,0,0', 'app,0,.', 'shl,0,i32,-2147483648', 'shl,0,ill,-9223372036854775808',
                     'shl,0,ull,18446744073709551615', 'shl,0,u32,0', 'del,0'])
     out.append(['new,0', 'appc,0,65,3000', 'appc,0,66,3000', 'trunc,0,100', 'appc,0,67,8000', 'del,0'])
+    for fill in (0, 1, stk - 2, stk - 1, stk, stk + 1, 2 * stk):
+        base = ['new,0'] + (['appc,0,97,%d' % fill] if fill else [])
+        tost = ['tostr,0,u,cv', 'tostr,0,u,si', 'tostr,0,u,av', 'tostr,0,u,default', 'tostr,0,l,cv']
+        out.append(base + ['app,0,c3a9'] + tost + ['app,0,e282'] + tost + ['trunc,0,%d' % (fill + 1)] + tost + ['del,0'])
+        out.append(base + ['shl16s,0,00e9d83dde00,M=c3a9f09f9880', 'shl32s,0,0001f600000020ac,M=f09f9880e282ac', 'shlw,0,00000041,M=41']
+                   + tost + ['app,0,ff'] + tost + ['del,0'])
     return out
 
 
@@ -117,7 +137,9 @@ class C16(vlib.Check):
             'then growth, truncate, erase, move construction / move assignment (incl. self) in both storage modes followed by '
             'use of BOTH objects, integer insertion of the extreme values; seeded random well-formed histories (12-20 operations '
             'over 3 slots) whose appends are aimed at landing exactly on / next to capacity boundaries, through the append, '
-            'operator<<(const char*), ST::string, std::string, string_view, u8string and char overloads. '
+            'operator<<(const char*), ST::string, std::string, string_view, u8string and char overloads, insertion of UTF-16/UTF-32/'
+            'wchar_t text (modelled by composing with the transcoder model), and to_string(utf8|latin1, mode) evaluated on '
+            'well-formed and ill-formed contents at every fill level around the capacity. '
             'non-trivial = history with >= 3 operations; distinct = distinct case line')
     modelled_not_verified = ('operator new[]/delete[]', 'std::char_traits copy/move/assign',
                              'size_t overflow of m_size + added_size (appends near 2^64 bytes) is outside the model',
